@@ -185,8 +185,19 @@ fn long_run<T: Scalar>(spec: &Spec, st: &mut Stats, sink: &Sink) {
             let r = guard(|| {
                 let mut v = build::<T>(spec);
                 let mut was = false;
+                let doc = documented(spec);
                 for i in 0..len {
                     v.update(T::of(at(i)));
+                    // single views over Echo: the number of delivered values is the number of updates
+                    if let (Some((lo, hi)), true) = (doc, spec.depth() <= 2) {
+                        let l = v.last();
+                        if l.is_some() && i + 1 < lo {
+                            return Some((i, "warm-up", format!("reports a value after only {} delivered value(s); documented: nothing before {}", i + 1, lo)));
+                        }
+                        if l.is_none() && i + 1 >= hi {
+                            return Some((i, "warm-up", format!("still reports nothing after {} delivered value(s); documented: a value from {}", i + 1, hi)));
+                        }
+                    }
                     match v.last() {
                         Some(x) if !x.is_finite() => return Some((i, "finite", format!("non-finite output {:?} at step {}", x.f(), i))),
                         Some(_) => was = true,
@@ -244,10 +255,22 @@ pub fn run(ctx: &Ctx) -> CheckOutput {
             }
         }
     }
-    // larger N for the recursive views (long runs only)
-    for n in [8usize, 16, 20] {
-        for k in [Kind::SuperSmoother, Kind::Roofing, Kind::CyberCycle, Kind::TrendFlex, Kind::ReFlex, Kind::LaguerreRsi, Kind::Eft, Kind::Ema] {
-            let spec = mk(k, n, Spec::echo());
+    // larger N (long runs only): every view that has a window length, all variants
+    let big_ns: Vec<usize> = if quick { vec![5, 7, 8, 12, 16, 20, 33] } else { (5..=40).chain([48, 64, 100]).collect() };
+    for n in big_ns {
+        let mut specs: Vec<Spec> = vec![];
+        for e in unary_catalogue() {
+            if e.has_n {
+                specs.extend(variants(e.kind, n, &Spec::echo()));
+            }
+        }
+        for m in [4usize, 7, 11] {
+            specs.push(Spec::roofing(n, m, Spec::echo()));
+        }
+        for spec in specs {
+            if needs_positive(&spec) {
+                continue;
+            }
             jobs.push(Box::new(move || {
                 let mut st = Stats::default();
                 let sink = Sink::new();
